@@ -1,6 +1,7 @@
 import Hgxv.Model.Wire
 import Hgxv.Model.C12
 import Hgxv.Model.C12Hist
+import Hgxv.Model.C12Ext
 /-! Line protocol for C12.  State: the current directed hypergraph (its two listings) and the objects of a history.
   `load <sources as natss> <targets as natss> <nodes>`  -> `ok`
   `indeg <size|-1>` / `outdeg <size|-1>`                -> `n:deg,...` in node-list order
@@ -17,7 +18,16 @@ import Hgxv.Model.C12Hist
   `hrmnode <slot> <n> <0|1>`           `hrmnodes <slot> <ns> <0|1>`
   `hsetw <slot> <S> <T> <w>`
   `hload <slot>`   the listings of the object become the current hypergraph
-                   -> `<sources> <targets> <nodes>` in listing order | `bad-slot` -/
+                   -> `<sources> <targets> <nodes>` in listing order | `bad-slot`
+
+ extension round (`Model/C12Ext.lean`: the routines as the code runs them, aggregates):
+  `callin <order|N> <size|N> <n>` / `callout ..`         -> degree | `rej` (the call raises)
+  `seqin <order|N> <size|N>` / `seqout ..`               -> `n:deg,...` | `rej`
+  `sums <size|-1>`        -> `sum in-degrees,sum out-degrees,sum source sizes,sum target sizes,sum sizes`
+  `lexact m` / `lstrong m` / `lweak m`                   -> the tables computed loop by loop
+  `lsig m` / `sigdef`     -> the flattened 2-d accumulation / with the default bound
+  `sigagg m`              -> `source-weighted,target-weighted,diag 2,...,diag m` of `signature m`
+  `rev`                   -> the current hypergraph becomes its reverse; `<sources> <targets>` -/
 open Wire C12
 
 structure St where
@@ -34,6 +44,10 @@ def showTable (t : List (Nat × Rat)) : String :=
 def showSeq (t : List (Nat × Nat)) : String :=
   showList "," "-" (fun (p : Nat × Nat) => toString p.1 ++ ":" ++ toString p.2) t
 
+def optNat? (s : String) : Option (Option Nat) := if s = "N" then some none else s.toNat?.map some
+def showOptNat : Option Nat → String
+  | some n => toString n
+  | none => "rej"
 def optInt? (s : String) : Option (Option Int) := if s = "N" then some none else s.toInt?.map some
 def optInts? (s : String) : Option (Option (List Int)) := if s = "N" then some none else (ints? s).map some
 def bool? (s : String) : Option Bool := if s = "1" then some true else if s = "0" then some false else none
@@ -74,6 +88,39 @@ def step (s : St) : List String → St × String
   | ["strong", m] => (s, showTable (reciprocityTable isStrong s.es m.toNat!))
   | ["weak", m] => (s, showTable (reciprocityTable isWeak s.es m.toNat!))
   | ["sig", m] => (s, showNats (signature s.es m.toNat!))
+  | ["callin", o, k, n] =>
+    match optNat? o, optNat? k, n.toNat? with
+    | some o, some k, some n => (s, showOptNat (inDegreeCall s.nodes s.es o k n))
+    | _, _, _ => (s, "bad-op")
+  | ["callout", o, k, n] =>
+    match optNat? o, optNat? k, n.toNat? with
+    | some o, some k, some n => (s, showOptNat (outDegreeCall s.nodes s.es o k n))
+    | _, _, _ => (s, "bad-op")
+  | ["seqin", o, k] =>
+    match optNat? o, optNat? k with
+    | some o, some k => (s, match inDegreeSeqCall s.nodes s.es o k with | some t => showSeq t | none => "rej")
+    | _, _ => (s, "bad-op")
+  | ["seqout", o, k] =>
+    match optNat? o, optNat? k with
+    | some o, some k => (s, match outDegreeSeqCall s.nodes s.es o k with | some t => showSeq t | none => "rej")
+    | _, _ => (s, "bad-op")
+  | ["sums", k] =>
+    let f := sizeArg k
+    (s, showNats [sumInDegrees s.nodes s.es f, sumOutDegrees s.nodes s.es f, sumSourceSizes s.es f,
+                  sumTargetSizes s.es f, ((selected s.es f).map esize).sum])
+  | ["lexact", m] => (s, showTable (exactLoop s.es m.toNat!))
+  | ["lstrong", m] => (s, showTable (strongLoop s.es m.toNat!))
+  | ["lweak", m] => (s, showTable (weakLoop s.es m.toNat!))
+  | ["lsig", m] => (s, showNats (signatureLoop s.es m.toNat!))
+  | ["sigdef"] => (s, showNats (signatureDefault s.es))
+  | ["sigagg", m] =>
+    let m := m.toNat!
+    let sig := signature s.es m
+    (s, showNats ([sigSourceWeighted sig m, sigTargetWeighted sig m] ++
+                  ((List.range (m + 1)).filter (2 ≤ ·)).map (fun k => sigDiagonal sig m k)))
+  | ["rev"] =>
+    let es := reverse s.es
+    ({ s with es := es }, showNatss (es.map (·.1)) ++ " " ++ showNatss (es.map (·.2)))
   | ["hreset"] => ({ s with hist := [] }, "ok")
   | ["hload", sl] =>
     match sl.toNat?.bind (AL.get? s.hist) with
